@@ -24,6 +24,14 @@ Theorem C16_point_to_point : forall a p, a < 2 ^ 32 -> 31 <= p <= 32 ->
 Proof. exact ip_gen_single. Qed.
 Print Assumptions C16_point_to_point.
 
+(* ipGenerator handed an IPNet whose IP field is NOT aligned (host bits set): for prefixes up to 30
+   the enumeration is the same; /31,/32 send the IP field, which is the network address when aligned *)
+Theorem C16_raw_ipnet : forall ip p, ip < 2 ^ 32 -> 2 <= p <= 32 ->
+  (p <= 30 -> ip_gen_raw ip p = ip_gen ip p) /\
+  (31 <= p -> ip_gen_raw ip p = [ip] /\ (ip mod 2 ^ (32 - p) = 0 -> ip_gen_raw ip p = ip_gen ip p)).
+Proof. exact ip_gen_raw_spec. Qed.
+Print Assumptions C16_raw_ipnet.
+
 (* the probe-count estimate equals the number enumerated *)
 Theorem C16_estimate_eq_count : forall a p, a < 2 ^ 32 -> 2 <= p <= 32 ->
   N.of_nat (length (ip_gen a p)) = compute_net_sz p.
